@@ -112,7 +112,10 @@ func fieldsOf(tr *http.Transport, dialOK bool, want limits) trFields {
 	// every other exported field of http.Transport that limits or changes connection handling:
 	// NewTransport leaves them at their zero value (found by reflection, so fields added by a
 	// newer Go are covered too)
-	known := map[string]bool{"ResponseHeaderTimeout": true, "IdleConnTimeout": true, "MaxIdleConnsPerHost": true, "Dial": true, "TLSClientConfig": true}
+	// (DisableCompression is neither a limit nor connection handling: it only decides whether the
+	// transport adds an Accept-Encoding of its own, which is C07's subject; /repo 5e1efca sets it)
+	known := map[string]bool{"ResponseHeaderTimeout": true, "IdleConnTimeout": true, "MaxIdleConnsPerHost": true, "Dial": true, "TLSClientConfig": true,
+		"DisableCompression": true}
 	v := reflect.ValueOf(tr).Elem()
 	for i := 0; i < v.NumField(); i++ {
 		ft := v.Type().Field(i)
